@@ -430,7 +430,41 @@ func plyGeneric(r *vlib.Run) {
 		}
 
 		// ---- reader on the reference encoding (independent of the writer)
-		ref := append([]byte(h.text(rng, true)), refBody...)
+		refText := h.text(rng, true)
+		if c.Index%6 == 5 {
+			// a long header (comment lines) whose end_header line ends within a few bytes of a
+			// multiple of 4096: the line straddles, ends at or starts at a buffer-sized boundary
+			target := 4096*(1+rng.Intn(3)) + rng.Intn(27) - 12
+			for target-len(refText) < 8 {
+				target += 4096
+			}
+			pad := target - len(refText)
+			var cm strings.Builder
+			for pad > 0 {
+				n := pad
+				if n > 160 {
+					n = 80 + rng.Intn(80)
+					if pad-n < 8 {
+						n = pad - 8
+					}
+				}
+				// a comment line of exactly n bytes
+				if n == 8 {
+					cm.WriteString("comment\n")
+				} else {
+					cm.WriteString("comment " + strings.Repeat("x", n-9) + "\n")
+				}
+				pad -= n
+			}
+			cut := strings.Index(refText, "\n") + 1
+			cut += strings.Index(refText[cut:], "\n") + 1
+			refText = refText[:cut] + cm.String() + refText[cut:]
+			c.Count("ply.reader.headers_ending_near_a_multiple_of_4096", 1)
+			if len(refText) != target {
+				panic("harness: padded header has the wrong length")
+			}
+		}
+		ref := append([]byte(refText), refBody...)
 		_ = refHeader
 		if readAllPLY(c, ref, h, rows, tr, cp(), "harness reference encoder") {
 			c.Count("ply.reader.reference_files_ok", 1)
